@@ -211,6 +211,8 @@ def canon_info(x):
 
 
 def canon_val(v):
+    if isinstance(v, tuple):
+        return "?" + repr(v)[:60]
     if v is None:
         return "N"
     if isinstance(v, bool):
@@ -244,6 +246,17 @@ class Rec:
 
 
 REC = Rec()
+STALLS = {"n": 0}
+
+
+def stall_timeout(wt):
+    """waiting for a task that never starts costs wall time: be patient only for the first stalls"""
+    base = 20.0 if wt == "process" else 6.0
+    if STALLS["n"] >= 8:
+        return 0.15 if wt != "process" else 1.0
+    if STALLS["n"] >= 2:
+        return 0.5 if wt != "process" else 3.0
+    return base
 
 
 def patched_pools():
@@ -284,8 +297,8 @@ def controller(ctl, order, timeout, state, armed_at=None):
             break
         ctl.release(t)
         state["released"].append(t)
-    else:
-        return
+    # everything the rule expects has been released: whatever else was started (code that
+    # deviates from the model) must not stay blocked
     ctl.open_all()
 
 
@@ -338,7 +351,7 @@ def run_real(sc, case):
             pos = max(order.index(i) for i in range(k0 + 1))
             armed_at = pos            # release up to (excluding) the event that arms the exception
     state = {"released": [], "stall": None}
-    ctrl = threading.Thread(target=controller, args=(ctl, order, 20 if wt == "process" else 6, state, armed_at),
+    ctrl = threading.Thread(target=controller, args=(ctl, order, stall_timeout(wt), state, armed_at),
                             daemon=True)
     obs = {"items": [], "exc": None, "order": order}
     has_info = bool(cfg[2]) if kind != "collect" else False
@@ -355,10 +368,13 @@ def run_real(sc, case):
                 obs["items"] = list(call())
             else:
                 res = call()
-                if case["ri"]:
-                    obs["infos"], obs["data"] = [canon_info(i) for i in res[0]], [canon_val(v) for v in res[1]]
-                else:
-                    obs["infos"], obs["data"] = None, [canon_val(v) for v in res]
+                try:
+                    if case["ri"]:
+                        obs["infos"], obs["data"] = [canon_info(i) for i in res[0]], [canon_val(v) for v in res[1]]
+                    else:
+                        obs["infos"], obs["data"] = None, [canon_val(v) for v in res]
+                except Exception:       # noqa
+                    obs["infos"], obs["data"] = None, ["?" + repr(res)[:80]]
         except Exception as e:          # noqa: the exception IS the observation
             obs["exc"] = canon_exc(e)
         finally:
@@ -369,11 +385,17 @@ def run_real(sc, case):
     if kind != "collect":
         items = []
         for it in obs["items"]:
-            if has_info:
-                items.append(canon_info(it[0]) + "/" + canon_val(it[1]))
-            else:
-                items.append("-/" + canon_val(it))
+            try:
+                if has_info:
+                    info, val = it
+                    items.append(canon_info(info) + "/" + canon_val(val))
+                else:
+                    items.append("-/" + canon_val(it))
+            except Exception:           # noqa: a malformed result is an observation, not a crash
+                items.append("?" + repr(it)[:60])
         obs["items"] = items
+    if state["stall"] is not None:
+        STALLS["n"] += 1
     obs.update(maxout=REC.maxout, submitted=REC.submitted, released=state["released"], stall=state["stall"],
                reads=collections.Counter(ctl.read_log()), wall=time.time() - t0)
     if gdir:
@@ -679,18 +701,22 @@ def gen_align(rng, big=False):
             "ri": rng.choice([1, 1, 0]), "prb": prb, "srb": srb, "perm": tasks}
 
 
-def align_match_case(ck, sc, rng):
+def align_match_case(ck, sc, np_, ns):
     """align on the output of FileSet.match (no hand-made matches): oracle = overlap of the spans"""
-    np_, ns = rng.randint(1, 4), rng.randint(1, 6)
     a, ida, infa = sc.fileset("a", [(10 * i, 10 * i + 9) for i in range(np_)], max_threads=2)
     b, idb, infb = sc.fileset("b", [(7 * i, 7 * i + 6) for i in range(ns)], max_threads=2)
     cw.CTL["a"] = cw.Ctl(ntasks=0, rb="o" * np_, name="a", ids=ida)
     cw.CTL["b"] = cw.Ctl(ntasks=0, rb="o" * ns, name="b", ids=idb)
-    got = [(cw.file_id(p[0]), p[1], cw.file_id(s[0]), s[1]) for p, s in a.align(b)]
+    c = {"op": "align-match", "np": np_, "ns": ns}
+    try:
+        got = [(cw.file_id(p[0]), p[1], cw.file_id(s[0]), s[1]) for p, s in a.align(b)]
+    except Exception as e:          # noqa
+        ck.case(kind="align/match")
+        ck.violation("other", f"align over match() raised {type(e).__name__}: {e}", c)
+        return
     want = [(p, 1000 + p, s, 1000 + s) for p in range(np_) for s in range(ns)
             if 7 * s <= 10 * p + 9 and 10 * p <= 7 * s + 6]
     reads = collections.Counter(cw.CTL["b"].read_log())
-    c = {"op": "align-match", "np": np_, "ns": ns}
     ck.case(key=f"align-match/{np_}/{ns}" if len(want) > 1 else None, kind="align/match")
     if got != want:
         ck.violation("other", f"align over match() yielded {got}, expected {want}", c)
@@ -852,7 +878,7 @@ def explore(ck, sc, use_model, n_random, n_align, n_proc, nmax):
     cases += [process_case(rng) for _ in range(n_proc)]
     run_batch(ck, sc, cases, use_model)
     for _ in range(max(3, n_align // 10)):
-        align_match_case(ck, sc, rng)
+        align_match_case(ck, sc, rng.randint(1, 4), rng.randint(1, 6))
 
 
 def main():
@@ -917,6 +943,8 @@ def replay(path):
             align_case(ck, sc, c, None)
         elif c.get("op") == "misc":
             misc_cases(ck, sc)
+        elif c.get("op") == "align-match":
+            align_match_case(ck, sc, c["np"], c["ns"])
         else:
             print("case kind not replayable:", c.get("op"))
     finally:
